@@ -56,6 +56,12 @@ def oracle(lib, pop_exp, text, states, wd, tag, strict=False):
         js = r["json"]
         assigned = {i["id"]: i["state"] for i in js["assigned"]}
         if assigned != {k: v for k, v in states.items()}:
+            if os.environ.get("VERIF_C16_DUMP"):
+                import shutil as _sh
+                _sh.copy(f, os.path.join(os.environ["VERIF_C16_DUMP"], "c16_%d_%s.p21" % (os.getpid(), tag)))
+                _sh.copy(lib["exp"], os.path.join(os.environ["VERIF_C16_DUMP"], "c16_%d.exp" % os.getpid()))
+                open(os.path.join(os.environ["VERIF_C16_DUMP"], "c16_%d_%s.json" % (os.getpid(), tag)), "w").write(json.dumps({"assigned": sorted(assigned.items()), "states": sorted(states.items()), "strict": strict}))
+                open(os.path.join(os.environ["VERIF_C16_DUMP"], "c16_%d_%s.err" % (os.getpid(), tag)), "w").write(st_arg + "\n" + r["err"][-3000:] + "\n" + r["out"][-3000:])
             return ["machinery: states could not be assigned as drawn: %s vs %s" % (assigned, states)]
         try:
             w1 = open(w[0], encoding="latin-1").read()
@@ -133,12 +139,13 @@ def strip_deleted(w):
             return w
         k = m.end()
         n = len(w)
-        instr = False
         while k < n:
             c = w[k]
             if c == "'":
-                instr = not instr
-            elif c == ";" and not instr:
+                # (the reference parser's scanner: an apostrophe may also be the argument of a \S\ directive)
+                k = p21parse._scan_string(w, k)
+                continue
+            if c == ";":
                 break
             k += 1
         k += 1
